@@ -185,6 +185,32 @@ void verif_case(Ctx &c) {
 			(unsigned long long)(reg().destroyed - destroyed_before), present);
 	VTRACK_END(c);
 
+	// A second, small tree whose values are trivially default constructible (the form in which kernels store pointers and counters): the
+	// argument-less find_or_insert(k) / insert(k) creates a value-initialised - zero - value, also in a slot that held another value
+	// before it was erased. Driven by what is left of the tape (works with an exhausted tape too).
+	if(c.focus() != "C16") {
+		struct Plain { long a; void *p; };
+		using PTree = frg::rcu_radixtree<Plain, track_alloc>;
+		PTree *pt = c.make<PTree>(track_alloc{});
+		uint64_t k0 = t.next64();
+		uint64_t keys[3] = {k0, k0 ^ 0x10, k0 ^ 0x0100000000000000ull};
+		std::map<uint64_t, long> pref;
+		unsigned rounds = 2 + t.pick(6);
+		c.op("plain-value tree: %u rounds over %#llx and two neighbours", rounds, (unsigned long long)k0);
+		for(unsigned i = 0; i < rounds; i++) {
+			uint64_t k = keys[t.pick(3)];
+			unsigned what = t.pick(4);
+			if(!pref.count(k)) {
+				if(what & 1) { long v = 1000 + (long)i; auto *q = pt->insert(k, Plain{v, &pref}); VCHECK(c, "C09", q && q->a == v && q->p == &pref, "plain tree: insert(%#llx, {%ld, p}) stores {%ld, %p}", (unsigned long long)k, v, q ? q->a : -1, q ? q->p : nullptr); pref[k] = v; }
+				else { auto r = pt->find_or_insert(k); Plain *q = r.get<0>(); VCHECK(c, "C09", r.get<1>() && q && q->a == 0 && q->p == nullptr, "plain tree: find_or_insert(%#llx) without constructor arguments yields {%ld, %p} (inserted: %d); a value-initialised value is {0, null}", (unsigned long long)k, q ? q->a : -1, q ? q->p : nullptr, (int)r.get<1>()); pref[k] = 0; c.tag("plain-value-default-insert"); }
+			} else if(what < 2) { pt->erase(k); pref.erase(k); c.tag("plain-value-erase"); }
+			for(auto &kv : pref) { Plain *q = pt->find(kv.first); VCHECK(c, "C09", q && q->a == kv.second, "plain tree: find(%#llx) yields %ld, the value most recently inserted under that key is %ld", (unsigned long long)kv.first, q ? q->a : -1, kv.second); }
+			for(uint64_t kk : keys) if(!pref.count(kk)) VCHECK(c, "C09", pt->find(kk) == nullptr, "plain tree: find(%#llx) finds an erased or absent key", (unsigned long long)kk);
+		}
+		c.destroy(pt);
+		c.check_san("C09");
+	}
+
 	if(c.focus() == "C16") c.nontrivial = present >= 1 && !erased_once.empty();
 	else c.nontrivial = max_present >= 3 && did_split && did_reinsert;
 	if(max_present >= 3) c.tag("present>=3");
